@@ -1,7 +1,7 @@
 # Per-property registration used by ./check: harness source, case counts per tier, non-triviality rule, assumptions.
 CHECKS = {}
 NOT_APPLICABLE = {}   # property id -> reason, for properties deliberately not claimed
-HOOK_COMMITS = []     # commits in /repo that add OMPL_VERIF-guarded hooks
+HOOK_COMMITS = ["62a93b3f73d09044be464450508a5e195cd7960f"]  # commits in /repo that add OMPL_VERIF-guarded hooks (yield points, C19)
 
 CHECKS["C11"] = dict(
     src="harness/C11_heap.cpp",
